@@ -111,6 +111,12 @@ def wf_graph(h: H, G, parts=('W0', 'W1', 'W2', 'W3', 'W4', 'W5')):
         out.append(('W0.elems', z3.And(
             FA([k], z3.Implies(h.bag(NL, k) > 0, is_VRef(k)), [h.bag(NL, k)]),
             FA([k], z3.Implies(h.bag(AL, k) > 0, is_VRef(k)), [h.bag(AL, k)]))))
+        for f in ('children', 'parents', 'compromised_by'):
+            out.append(('W0.elems.node.' + f, FA([n, k], z3.Implies(z3.And(is_node(h, G, n), h.bag(h.f(f, n), k) > 0), is_VRef(k)),
+                                                 [h.bag(h.f(f, n), k)])))
+        for f in ATT_LISTS:
+            out.append(('W0.elems.att.' + f, FA([a, k], z3.Implies(z3.And(is_att(h, G, a), h.bag(h.f(f, a), k) > 0), is_VRef(k)),
+                                                [h.bag(h.f(f, a), k)])))
     if 'W1' in parts:
         out.append(('W1.ids', FA([n], z3.Implies(is_node(h, G, n), z3.And(is_VInt(h.f('id', n)), v_i(h.f('id', n)) < h.f('next_node_id', G))),
                                  [h.cnt(NL, n)])))
